@@ -170,7 +170,7 @@ def pickFirstRound (oracle routersLeft nodesLeft : List Addr) : Option (Addr × 
 def DState.finishInitial (s : DState) (responses : Nat) (remaining : List Pending) (now : Nat) : DState × List DEv :=
   if responses = 0 then
     let (s, e) := s.setPub .idle
-    ({ s with phase := .sleeping (now + retryDelay s.attempt), attempt := s.attempt + 1, stale := [] },
+    ({ s with phase := .sleeping (now + retryDelay s.attempt), attempt := s.attempt + 1 },
      [DEv.binitialDone responses] ++ e)
   else
     let (s, e) := s.setPub .bootstrapping
@@ -203,7 +203,8 @@ def DState.sweepDone (s : DState) (now : Nat) : DState × List DEv :=
   let quest := s.h.table.numQuestionable now
   if good < Constants.GOOD_NODE_THRESHOLD && !(dedup s.cfg.routers).isEmpty then
     let (s, e) := s.setPub .idle
-    ({ s with phase := .sleeping (now + retryDelay s.attempt), attempt := s.attempt + 1, stale := [] },
+    -- the exchanges of this attempt stay registered during the back-off sleep (dropped at the next attempt)
+    ({ s with phase := .sleeping (now + retryDelay s.attempt), attempt := s.attempt + 1 },
      [DEv.bsweep good quest] ++ e)
   else
     let (s, e) := s.setPub .bootstrapped
